@@ -64,7 +64,8 @@ Collect(S, tn, sels, acc, frags) ==
        IN  IF s.k = "field" THEN
              Collect(S, tn, rest,
                      (IF inc THEN [acc EXCEPT !.fs = AddField(@, [alias |-> s.alias, name |-> s.name,
-                                                                   sels |-> s.sels, dfr |-> FALSE, label |-> ""], 1)]
+                                                                   sels |-> s.sels, dfr |-> FALSE, label |-> "",
+                                                                   afault |-> s.afault, aname |-> s.aname], 1)]
                       ELSE acc), frags)
            ELSE IF s.k = "inline" THEN
              (IF inc /\ Matches(S, tn, s.on)
@@ -183,7 +184,14 @@ ExecField(C, tn, f, rp, vp) ==
            rh  == IF rp = "" THEN IntHow(C, rp2, "#r") ELSE "pass"
            fh  == IntHow(C, rp2, "#f")
            bad == IF rh = "panic" THEN "panic" ELSE IF fh = "err" THEN "int" ELSE IF fh = "panic" THEN "panic" ELSE ""
-       IN  IF bad # ""
+       IN  IF f.afault # ""
+           \* an input unmarshaler of this field's arguments failed: an error is
+           \* reported at the argument's path, a panic (recovered) at the field's path;
+           \* neither interceptors, directives nor the resolver run
+           THEN [d |-> Null, isnull |-> TRUE, nn |-> IsNN(fd.wrap),
+                 errs |-> <<[p |-> IF f.afault = "err" THEN Join(rp2, f.aname) ELSE rp2, c |-> f.afault]>>,
+                 pos |-> {}]
+           ELSE IF bad # ""
            THEN [d |-> Null, isnull |-> TRUE, nn |-> IsNN(fd.wrap),
                  errs |-> <<[p |-> rp2, c |-> bad]>>, pos |-> {}]
            ELSE IF fd.res
